@@ -56,8 +56,8 @@ Definition run_rq (n : net) (fib : list Z) (r : rq) : string :=
         match model_ccp n s t (inc ++ [t]) (st ++ [true]) with
         | Err e => append "m=E:" e
         | Ok (CExplicit p) =>
-            append "m=X" (append (zs (weight g p))
-              (match q_obs r with OPath po _ => if zlist_eqb p po then "="%string else "!"%string | _ => "!"%string end))
+            append "m=X" (append (zs (weight g p)) (append (if explicit_forced n inc s t p then "u" else "n")%string
+              (match q_obs r with OPath po _ => if zlist_eqb p po then "="%string else "!"%string | _ => "!"%string end)))
         | Ok (CSearch o) => append "m=" (outcome_s g o)
         end in
       let s_s := append "s=" (append (outcome_s g spec) (match sat with [] => "U" | _ => "I" end)%string) in
